@@ -4,6 +4,7 @@ package vrt
 
 import (
 	"fmt"
+	"os"
 	"runtime"
 	"runtime/debug"
 	"strings"
@@ -253,6 +254,8 @@ func (s *sched) threadExit(t *thread) {
 	s.cur = nil
 	s.exitDispatch()
 }
+
+var debugSteps = os.Getenv("VERIF_DEBUG_STEPS") != ""
 
 func (s *sched) finish() {
 	select {
@@ -580,6 +583,9 @@ func (s *sched) choose(n int, kind, label string, curFirst bool) int {
 // performs its pending operation and returns it. nil = nobody can run.
 func (s *sched) pick(from *thread) *thread {
 	s.steps++
+	if debugSteps && s.steps%20000 == 0 {
+		println("vrt: steps", s.steps, "threads", len(s.threads), "trace", len(s.trace))
+	}
 	if s.maxSteps > 0 && s.steps > s.maxSteps {
 		s.verdict.Aborted = true
 		return nil
